@@ -788,6 +788,20 @@ class Node:
 
         if new_parent._tree is not self._tree:
             raise NotImplementedError("Can only move nodes inside same tree")
+        if new_parent is self or new_parent.is_descendant_of(self):
+            raise ValueError(f"Cannot move {self} into its own branch")
+
+        if before is True:
+            before = 0  # prepend
+        elif before is False:
+            before = None  # append
+        if isinstance(before, Node) and before._parent is not new_parent:
+            raise ValueError(
+                f"`before=node` ({before._parent}) "
+                f"must be a child of target node ({new_parent})"
+            )
+        if before is self:
+            return  # already there
 
         # NOTE: `list.remove()` checks for equality ('=='), not identity!
         del self._parent._children[Node.get_index(self)]  # type: ignore
@@ -795,19 +809,12 @@ class Node:
             self._parent._children = None
         self._parent = new_parent
 
-        if before is True:
-            before = 0  # prepend
-        elif before is False:
-            before = None  # append
-
         target_siblings = new_parent._children
         if target_siblings is None:
-            assert before in (None, True, False, 0), before
             new_parent._children = [self]  # type: ignore
         elif isinstance(before, Node):
-            assert before._parent is new_parent, before
-            idx = target_siblings.index(before)  # raise ValueError if not found
-            target_siblings.insert(idx, self)
+            # NOTE: `list.index()` checks for equality ('=='), not identity!
+            target_siblings.insert(Node.get_index(before), self)
         elif isinstance(before, int):
             target_siblings.insert(before, self)
         else:
